@@ -10,6 +10,11 @@ Tie: H -- the real dask path (`stats(...).compute()`, `crosstab(...).compute()`,
 chunked independently, schedulers synchronous / threads with 1, 2, 4 workers) against the Lean driver
 on the same rasters and chunkings; G -- combiner shapes, `_dask_mean/_std/_var`, the rechunk calls.
 Oracle (search): the NumPy-backed call on the same rasters (the property is "same table as NumPy").
+Input dimensions of the dask streams: the rasters' cells / ids / selections (C02, C04 generators), the chunk structure of
+each raster (`raster_chunks`: random / single chunk / 1-cell chunks / regular with ragged remainder / on the zone
+layout's edges; equal on both rasters, equal along one axis, independent), the *dimension names* of the two rasters
+(`gen_dims`: equal, different, swapped, none given -- the library pairs blocks by position, anything that matches
+chunks by name must not be misled), 2-D and 3-D values, scheduler and worker count.
 The dask calls cost 0.7-2 s each, so they are spread over a pool of forked worker processes.
 """
 import itertools
@@ -136,20 +141,90 @@ def cuts_to_chunks(n, cuts):
     return tuple(cuts[i + 1] - cuts[i] for i in range(len(cuts) - 1))
 
 
+CHUNK_CLASSES = ["random", "random", "single", "cells", "regular", "regular"]
+
+
+def axis_chunks(rng, n, cls):
+    """chunks of one axis of length n: a random composition; one chunk; 1-cell chunks; equal chunks of size k with a
+    ragged remainder when k does not divide n"""
+    if cls == "single":
+        return (n,)
+    if cls == "cells":
+        return (1,) * n
+    if cls == "regular":
+        k = rng.randint(1, max(1, n - 1))
+        return (k,) * (n // k) + ((n % k,) if n % k else ())
+    return Z.gen_chunks(rng, n)
+
+
+def raster_chunks(rng, h, w):
+    """-> (chunks, class): both axes of one class (a raster in one chunk, a raster cut into cells, …) or one class per axis"""
+    if rng.random() < 0.5:
+        cls = rng.choice(CHUNK_CLASSES)
+        return (axis_chunks(rng, h, cls), axis_chunks(rng, w, cls)), cls
+    a, b = rng.choice(CHUNK_CLASSES), rng.choice(CHUNK_CLASSES)
+    return (axis_chunks(rng, h, a), axis_chunks(rng, w, b)), (a if a == b else "mixed")
+
+
 def rand_chunks(rng, c, three=False):
-    zch = (Z.gen_chunks(rng, c["h"]), Z.gen_chunks(rng, c["w"]))
+    zch, zcls = raster_chunks(rng, c["h"], c["w"])
     if rng.random() < 0.3:            # chunk borders on the zone layout's own edges (all of them, or some)
         rows, cols = layout_cuts(c)
         if rng.random() < 0.5:
             rows, cols = [x for x in rows if rng.random() < 0.6], [x for x in cols if rng.random() < 0.6]
-        zch = (cuts_to_chunks(c["h"], rows), cuts_to_chunks(c["w"], cols))
-    if rng.random() < 0.25:
-        vch = zch
+        zch, zcls = (cuts_to_chunks(c["h"], rows), cuts_to_chunks(c["w"], cols)), "layout"
+    u = rng.random()
+    if u < 0.15:
+        vch, vcls = zch, zcls
+    elif u < 0.3:                     # the same along one axis, different along the other
+        other, vcls = raster_chunks(rng, c["h"], c["w"])
+        vch = (zch[0], other[1]) if rng.random() < 0.5 else (other[0], zch[1])
+    elif u < 0.5:                     # the same chunk sizes in another order (a flipped / rolled raster): same number of
+        def perm(ch):                 # blocks, same largest chunk, other borders
+            ch = list(ch)
+            if len(set(ch)) > 1:
+                first = tuple(ch)
+                while tuple(ch) == first:
+                    rng.shuffle(ch)
+            return tuple(ch)
+        vch, vcls = (perm(zch[0]), perm(zch[1])), "permuted"
+        if vch == tuple(zch):         # all chunks of an axis equal: nothing to permute
+            vch, vcls = raster_chunks(rng, c["h"], c["w"])
     else:
-        vch = (Z.gen_chunks(rng, c["h"]), Z.gen_chunks(rng, c["w"]))
+        vch, vcls = raster_chunks(rng, c["h"], c["w"])
     if three:
-        vch = (Z.gen_chunks(rng, len(c["layers"])),) + tuple(vch)
+        vch = (axis_chunks(rng, len(c["layers"]), rng.choice(CHUNK_CLASSES)),) + tuple(vch)
+    c["chunk_classes"] = [zcls, vcls]
     return zch, vch
+
+
+# ---------------------------------------------------------------- dimension names
+DIM_NAMES = [["y", "x"], ["lat", "lon"], ["row", "col"], ["northing", "easting"], "auto"]
+LAYER_NAMES = ["cat", "band", "layer", "time"]
+
+
+def gen_dims(rng, c, three=False):
+    """names of the dimensions of the two rasters: the usual ("y", "x") on both; other names, equal on both; different
+    names on the two rasters (chunks can then not be matched by name, only by position); the same two names the other
+    way round; one raster built without names (xarray's dim_0, dim_1)"""
+    u = rng.random()
+    if u < 0.35:
+        z, v, cls = ["y", "x"], ["y", "x"], "same:y,x"
+    elif u < 0.45:
+        z = rng.choice(DIM_NAMES[1:])
+        v, cls = z, "same:other"
+    elif u < 0.80:
+        z, v = rng.sample(DIM_NAMES, 2)
+        cls = "different"
+    else:
+        z = rng.choice(DIM_NAMES[:4])
+        v, cls = [z[1], z[0]], "swapped"
+    if three and v != "auto":
+        v = [rng.choice(LAYER_NAMES)] + list(v)
+    if three and v == "auto" and z == "auto":
+        cls = "different"             # dim_0, dim_1 of the zones are dim_1, dim_2 of the values
+    c["zdims"], c["vdims"], c["dims_class"] = z, v, cls
+    return c
 
 
 def key_of(kind, c, zch, vch, sched, nw):
@@ -235,6 +310,13 @@ def tags_of(key):
     return [f"stream:dask-{key['kind']}", f"shape:{key['h']}x{key['w']}", f"scheduler:{key['scheduler']}",
             f"workers:{key['num_workers']}", f"zblocks:{len(key['zchunks'][0]) * len(key['zchunks'][1])}",
             "chunks:" + ("same" if key["zchunks"] == key["vchunks"][-2:] else "independent"),
+            "chunks-rows:" + ("equal" if key["zchunks"][0] == key["vchunks"][-2] else "different"),
+            "chunks-cols:" + ("equal" if key["zchunks"][1] == key["vchunks"][-1] else "different"),
+            f"dims:{key.get('dims_class', 'same:y,x')}",
+            f"zchunk-class:{(key.get('chunk_classes') or ['?', '?'])[0]}",
+            f"vchunk-class:{(key.get('chunk_classes') or ['?', '?'])[1]}",
+            "dims+chunks:" + ("names-differ" if key.get("dims_class", "same:y,x")[:4] != "same" else "names-equal")
+            + "/" + ("chunks-equal" if key["zchunks"] == key["vchunks"][-2:] else "chunks-differ"),
             f"vdtype:{key['vdtype']}", f"zone_ids:{'none' if key.get('zone_ids') is None else 'list'}"]
 
 
@@ -244,9 +326,15 @@ def run(r, scale=1.0):
     n_stats, n_x2, n_x3 = (110, 38, 12) if quick else (1000, 330, 110)
     n_stats, n_x2, n_x3 = int(n_stats * scale), int(n_x2 * scale), int(n_x3 * scale)
     r.rule = ("rasters 1x1..5x6 as in C02 / C04 (every requested table has at least one existing zone); zones and values "
-              "chunked independently by random compositions of the two axes (3-D: also the layer axis), 25% equal "
-              "chunkings; schedulers synchronous / threads with 1, 2, 4 workers; thorough adds every pair of chunk "
-              "compositions (zones x values) for small shapes; non-trivial = more than one block")
+              "chunked independently, each axis of each raster from a chunk class: random composition / one chunk / 1-cell "
+              "chunks / equal chunks of size k with a ragged remainder (one class for the whole raster or one per axis), or on "
+              "the zone layout's own edges (3-D: also the layer axis); values: 15% the zones' chunking, 15% equal along one axis "
+              "only, 20% the zones' chunk sizes in another order, 50% independent; "
+              "dimension names: ('y','x') on both rasters (35%), other names on both (10%), different names on the two "
+              "rasters (35%: chunks cannot be matched by name), the same two names the other way round (20%), names taken "
+              "from y,x / lat,lon / row,col / northing,easting / none given (dim_0, dim_1); 3-D values with a layer dimension "
+              "cat / band / layer / time; schedulers synchronous / threads with 1, 2, 4 workers; thorough adds every pair of "
+              "chunk compositions (zones x values) for small shapes; non-trivial = more than one block")
     r.assumptions += ["dask delivers to every block function exactly the cells of its chunk, in row-major order "
                       "(observed through the model agreeing with the real result for every chunking tried)",
                       "block functions and combiners are pure: the model is a function, the schedulers are only observed",
@@ -267,13 +355,13 @@ def run(r, scale=1.0):
         jobs.append((k["kind"], c, k["zchunks"], k["vchunks"], k.get("scheduler"), k.get("num_workers")))
         r.tag("corpus")
     for _ in range(n_stats):
-        c = stats_case(rng)
+        c = gen_dims(rng, stats_case(rng))
         add("stats", c, *rand_chunks(rng, c))
     for _ in range(n_x2):
-        c = xtab2d_case(rng)
+        c = gen_dims(rng, xtab2d_case(rng))
         add("xtab2d", c, *rand_chunks(rng, c))
     for _ in range(n_x3):
-        c = xtab3d_case(rng)
+        c = gen_dims(rng, xtab3d_case(rng), three=True)
         add("xtab3d", c, *rand_chunks(rng, c, three=True))
     if not quick:
         # every pair (zones chunking, values chunking) of small shapes
@@ -284,6 +372,7 @@ def run(r, scale=1.0):
                 c2 = dict(c)
                 while (c2["h"], c2["w"]) != (h, w):
                     c2 = stats_case(rng, h, w)
+                gen_dims(rng, c2)
                 for zch in chunkings(h, w):
                     for vch in chunkings(h, w):
                         add("stats", c2, zch, vch)
@@ -293,6 +382,7 @@ def run(r, scale=1.0):
                 c2 = xtab2d_case(rng, h, w)
                 while (c2["h"], c2["w"]) != (h, w):
                     c2 = xtab2d_case(rng, h, w)
+                gen_dims(rng, c2)
                 for zch in chunkings(h, w):
                     for vch in chunkings(h, w):
                         add("xtab2d", c2, zch, vch)
